@@ -94,6 +94,13 @@ pub fn load_known() -> Vec<KnownFinding> {
     v.get("findings").and_then(|f| serde_json::from_value(f.clone()).ok()).unwrap_or_default()
 }
 
+/// where replays/ and evidence/ are written: VERIF_OUT (used when the checks run against a deliberately
+/// broken tree, see tools/run_seeded.sh) or the verification root
+pub fn out_root() -> std::path::PathBuf {
+    if let Ok(p) = std::env::var("VERIF_OUT") { return p.into(); }
+    verif_root()
+}
+
 pub fn verif_root() -> std::path::PathBuf {
     if let Ok(p) = std::env::var("VERIF_ROOT") { return p.into(); }
     // binary lives in <root>/sim/target/debug/simk
@@ -323,7 +330,7 @@ pub fn check(prop: &dyn Property, tier: Tier, base_seed: u64, jobs: usize, runs_
     let mut exit = 0;
     let mut new_violations = 0;
     let mut lines: Vec<String> = Vec::new();
-    let replays = verif_root().join("replays");
+    let replays = out_root().join("replays");
     let _ = std::fs::create_dir_all(&replays);
     for (viol, plan, seed) in &found {
         if let Some(k) = known.iter().find(|k| k.property == id && k.class == viol.class && k.key == viol.key) {
@@ -343,7 +350,10 @@ pub fn check(prop: &dyn Property, tier: Tier, base_seed: u64, jobs: usize, runs_
             Ok(r) => (r.trace_hash, r.violations.iter().find(|x| x.class == viol.class && x.key == viol.key).map(|x| x.detail.clone()).unwrap_or_default()),
             Err(e) => (0, e.clone()),
         };
-        let path = replays.join(format!("{}-{}-{}.json", id, viol.class.replace('/', "_"), seed));
+        // class + key hash + seed: two violations of one class found by the same seed keep separate files
+        let mut kh = crate::prng::TraceHash::new();
+        for b in viol.key.bytes() { kh.mix(b as u64); }
+        let path = replays.join(format!("{}-{}-{:08x}-{}.json", id, viol.class.replace('/', "_"), kh.0 as u32, seed));
         let file = json!({"property": id, "seed": seed, "plan": min_plan, "expect": {"class": viol.class, "key": viol.key, "trace_hash": format!("{:016x}", hash)}, "detail": detail, "shrink_steps": steps});
         let _ = std::fs::write(&path, serde_json::to_vec_pretty(&file).unwrap());
         lines.push(format!("VIOLATION property={} replay={}", id, path.display()));
@@ -400,7 +410,7 @@ pub fn check(prop: &dyn Property, tier: Tier, base_seed: u64, jobs: usize, runs_
             "harness_errors": harness_errors,
         }
     });
-    let evdir = verif_root().join("evidence");
+    let evdir = out_root().join("evidence");
     let _ = std::fs::create_dir_all(&evdir);
     let _ = std::fs::write(evdir.join(format!("{id}.json")), serde_json::to_vec_pretty(&ev).unwrap());
 
